@@ -38,8 +38,10 @@ def coq_const(v):
     if isinstance(v, int):
         return "(PInt (%d))" % v
     if isinstance(v, float):
-        if v != v or v in (float("inf"), float("-inf")):
-            raise Unmodelled("non-finite float constant")
+        if v != v:
+            return "(PFloat NaN)"
+        if v in (float("inf"), float("-inf")):
+            return "(PFloat PInf)" if v > 0 else "(PFloat NInf)"
         n, d = v.as_integer_ratio()
         e = -(d.bit_length() - 1)
         return "(PFloat (Fin (%d) (%d)))" % (n, e)
@@ -85,6 +87,25 @@ class Translator:
         if fdef.args.vararg or fdef.args.kwarg or fdef.args.kwonlyargs:
             raise Unmodelled("varargs in %s.%s" % (owner.__name__, name))
         ctx = {"cls": cls, "owner": owner, "vars": set(params)}
+        body = self.block(fdef.body, ctx)
+        args = " ".join("(v_%s : pyval)" % p for p in params)
+        self.defs.append((coqname, "Definition %s %s : res pyval :=\n  %s." % (coqname, args, body)))
+        return coqname
+
+    def function(self, name):
+        """A plain module-level helper function of the translated module: one Gallina definition."""
+        fn = self.g[name]
+        key = (None, None, name)
+        if key in self.done:
+            return self.done[key]
+        coqname = "modfn__%s" % name
+        self.done[key] = coqname
+        src = textwrap.dedent(inspect.getsource(fn))
+        fdef = ast.parse(src).body[0]
+        if fdef.args.vararg or fdef.args.kwarg or fdef.args.kwonlyargs or fdef.args.defaults or fdef.decorator_list:
+            raise Unmodelled("signature of module-level function %s" % name)
+        params = [a.arg for a in fdef.args.args]
+        ctx = {"cls": None, "owner": None, "vars": set(params)}
         body = self.block(fdef.body, ctx)
         args = " ".join("(v_%s : pyval)" % p for p in params)
         self.defs.append((coqname, "Definition %s %s : res pyval :=\n  %s." % (coqname, args, body)))
@@ -184,6 +205,11 @@ class Translator:
             return -self.const_of(e.operand, ctx)
         if isinstance(e, ast.Tuple):
             return tuple(self.const_of(x, ctx) for x in e.elts)
+        if isinstance(e, ast.Name) and e.id not in ctx["vars"] and e.id in self.g:
+            # a module-level constant (bound once at import; classes, functions and modules are not constants)
+            v = self.g[e.id]
+            if isinstance(v, (int, float, str)) or (isinstance(v, tuple) and all(isinstance(x, (int, float, str)) for x in v)):
+                return v
         if isinstance(e, ast.Attribute) and isinstance(e.value, ast.Name):
             base = e.value.id
             obj = ctx["cls"] if base == "cls" else self.g.get(base)
@@ -328,6 +354,10 @@ class Translator:
                 return "(%spy_int16 %s)" % (binds, args[0])
             if n in simple and len(args) == 1:
                 return "(%s%s %s)" % (binds, simple[n], args[0])
+            fn = self.g.get(n)
+            if n not in ctx["vars"] and inspect.isfunction(fn) and fn.__module__ == self.g.get("__name__") \
+                    and len(args) == len(inspect.signature(fn).parameters):
+                return "(%s%s %s)" % (binds, self.function(n), " ".join(args))
             raise Unmodelled("call of " + n)
         if isinstance(f, ast.Attribute):
             recv = f.value
